@@ -178,7 +178,7 @@ class Method(Unit):
     def cases(self):
         # unary() also serves systems of more than five species (dispatch): species count 6 stands for "> 5"
         sp = ("/species=1", "/species=6") if self.K == 1 else ("",)
-        return [f"d={d}/{o}{x}" for d in (2, 3) for o in ("nofile", "file", "file+qvectors") for x in sp]
+        return [f"d={d}/{o}{x}" for d, o in ((2, "nofile"), (3, "nofile"), (2, "file"), (3, "file+qvectors")) for x in sp]
 
     def setup(self, ctx, case):
         d = int(case[2])
@@ -337,7 +337,124 @@ class Method(Unit):
         return r.re if "cos" in fns else r.im
 
     def replay(self, case, clause, model, seed):
-        return {"ran": False, "failed": False}
+        return _replay_sq(self.K, int(case[2]), clause, model, seed, nspecies=6 if case.endswith("species=6") else self.K,
+                          outfile="/file" in case, saveq="+qvectors" in case)
+
+
+def brute_force_sq(np, positions, types, L, qint, K):
+    """independent evaluation of the statement: per-vector S_ab(m), then round(6), group by round(|q|, 6), mean.
+    positions: list over frames of (N, d) arrays; types: (N,) ids; L: (d,) edges; qint: (M, d) integer wave vectors.
+    -> (keys ascending, {column: group means}, {column: per-vector values}, |q| per vector)"""
+    T, N = len(positions), len(types)
+    q = qint.astype(float) * (2 * np.pi / L)[None, :]
+    qn = np.sqrt((q ** 2).sum(axis=1))
+    per = {}
+    rho = {}
+    for a in [None] + list(range(1, K + 1)):
+        r = np.zeros((T, len(q)), dtype=complex)
+        for s in range(T):
+            for i in range(N):
+                if a is None or types[i] == a:
+                    r[s] += np.exp(-1j * (q @ positions[s][i]))
+        rho[a] = r
+    for name, ab in columns(K):
+        a, b = (None, None) if ab is None else ab
+        na = N if a is None else int((types == a).sum())
+        nb = N if b is None else int((types == b).sum())
+        per[name] = (rho[a] * np.conj(rho[b])).real.sum(axis=0) / T / np.sqrt(float(na) * float(nb))
+    kq = np.round(qn, 6)
+    keys = np.unique(kq)
+    out = {}
+    for name in per:
+        rv = np.round(per[name], 6)
+        out[name] = np.array([rv[kq == k].mean() for k in keys])
+    return keys, out, per, qn
+
+
+def _replay_sq(K, d, clause, model, seed, nspecies=None, outfile=False, saveq=False, via_getresults=False):
+    """real sq(...).<method>() / getresults() on seeded trajectories (K species, d dims, unequal box edges, explicit integer wave-vector
+    lists with repeated |q| and negative components, and the default set from qrange) against brute_force_sq"""
+    import importlib
+    import os
+    import tempfile
+
+    import numpy as np
+    S = importlib.import_module(MOD)
+    RUm = importlib.import_module("PyMatterSim.reader.reader_utils")
+    nspecies = nspecies or K
+    rng = np.random.default_rng(seed + 31 * K + d)
+    tried = 0
+    tmp = tempfile.mkdtemp(prefix="pyvc-c04-")
+    try:
+        for trial in range(6):
+            N = int(rng.integers(nspecies + 1, nspecies + 9))
+            T = int(rng.integers(1, 4))
+            L = rng.uniform(3.0, 7.0, size=d)
+            if trial == 1:
+                L[:] = L[0]                      # cubic cell: many equal |q|
+            types = np.array([1 + (i % nspecies) for i in range(N)])
+            rng.shuffle(types)
+            pos = [rng.uniform(0, 1, size=(N, d)) * L for _ in range(T)]
+            snaps = [RUm.SingleSnapshot(timestep=s, nparticle=N, particle_type=types.copy(), positions=pos[s].copy(), boxlength=L.copy(),
+                                        boxbounds=np.column_stack([np.zeros(d), L]), realbounds=np.column_stack([np.zeros(d), L]),
+                                        hmatrix=np.diag(L)) for s in range(T)]
+            SN = RUm.Snapshots(nsnapshots=T, snapshots=snaps)
+            kw = {}
+            if trial % 3 != 2:
+                M = int(rng.integers(3, 9))
+                qint = rng.integers(-3, 4, size=(M, d))
+                qint[0] = 0
+                qint[0, 0] = 1
+                if M > 2:
+                    qint[1] = -qint[0]           # same |q|
+                    qint[2] = np.roll(qint[0], 1)
+                kw["qvector"] = qint
+            else:
+                kw["qrange"] = float(rng.uniform(2.5, 4.5))
+                kw["onlypositive"] = bool(trial == 5)
+            of = os.path.join(tmp, f"out{trial}.csv") if outfile else None
+            inputs = {"K": K, "d": d, "N": N, "T": T, "types": types.tolist(), "boxlength": L.tolist(),
+                      "positions": [p.tolist() for p in pos], **{k: (v.tolist() if hasattr(v, "tolist") else v) for k, v in kw.items()}}
+            try:
+                obj = S.sq(SN, outputfile=of, saveqvectors=saveq, **kw)
+                qint = np.asarray(obj.df_qvector.values)
+                res = obj.getresults() if via_getresults else getattr(obj, METHODS[K])()
+            except Exception as e:
+                return {"ran": True, "failed": True, "detail": f"raises {type(e).__name__}: {e}", "inputs": inputs}
+            tried += 1
+            keys, want, per, qn = brute_force_sq(np, pos, types, L, qint, K)
+            want_cols = ["q"] + [c for c, _ in columns(K)]
+            if list(res.columns) != want_cols or len(res) != len(keys):
+                return {"ran": True, "failed": True, "inputs": inputs,
+                        "detail": f"columns {list(res.columns)} / {len(res)} rows, expected {want_cols} / {len(keys)} rows"}
+            if not np.allclose(res["q"].values, keys, rtol=0, atol=1.5e-6):
+                return {"ran": True, "failed": True, "inputs": inputs, "detail": "q column is not the ascending distinct round6(|2 pi n / L|)"}
+            for name, _ in columns(K):
+                got = res[name].values
+                if not np.allclose(got, want[name], rtol=1e-9, atol=2.5e-6):
+                    kb = int(np.argmax(np.abs(got - want[name])))
+                    return {"ran": True, "failed": True, "searched": tried, "inputs": inputs,
+                            "detail": f"column {name}, row {kb} (|q| = {keys[kb]}): got {got[kb]!r}, expected {want[name][kb]!r} "
+                                      "(mean over equal |q| of round6(frame average of Re[rho_a conj rho_b]/sqrt(N_a N_b)))"}
+            if outfile:
+                import pandas as pd
+                back = pd.read_csv(of)
+                if list(back.columns) != want_cols or not np.allclose(back.values, res.values, rtol=0, atol=1e-6):
+                    return {"ran": True, "failed": True, "inputs": inputs, "detail": "CSV file differs from the returned table"}
+                qf = of[:-4] + "_qvectors.csv"
+                if saveq:
+                    bq = pd.read_csv(qf)
+                    okq = list(bq.columns) == [f"q{k}" for k in range(d)] + want_cols and len(bq) == len(qint) \
+                        and np.allclose(bq[[f"q{k}" for k in range(d)]].values, qint) and np.allclose(bq["q"].values, qn, atol=1e-6) \
+                        and all(np.allclose(bq[nm].values, per[nm], rtol=0, atol=1e-6) for nm, _ in columns(K))
+                    if not okq:
+                        return {"ran": True, "failed": True, "inputs": inputs, "detail": "_qvectors.csv is not the table of per-vector values"}
+                elif os.path.exists(qf):
+                    return {"ran": True, "failed": True, "inputs": inputs, "detail": "_qvectors.csv written although saveqvectors is False"}
+    finally:
+        import shutil
+        shutil.rmtree(tmp, ignore_errors=True)
+    return {"ran": True, "failed": False, "searched": tried}
 
 
 UNITS = [Method(K) for K in (1, 2, 3, 4, 5)]
